@@ -150,8 +150,16 @@ func Run(p Property, opt Options) int {
 		flat map[string]any
 	}
 	var unknown []viol
+	var flatOuts []caseOut
 	for _, o := range outs {
 		ev.add(o)
+		flatOuts = append(flatOuts, o)
+		for _, m := range o.res.More {
+			ev.byVerdict[m.V]++
+			flatOuts = append(flatOuts, caseOut{idx: o.idx, desc: o.desc, res: m})
+		}
+	}
+	for _, o := range flatOuts {
 		if o.res.V != Violated {
 			continue
 		}
@@ -306,6 +314,9 @@ func WriteReplay(id string, opt Options, desc any, res Result) (string, error) {
 	d, err := json.Marshal(desc)
 	if err != nil {
 		return "", err
+	}
+	if len(res.Replay) > 0 {
+		d = res.Replay
 	}
 	h := sha256.Sum256(append([]byte(res.Class+"|"), d...))
 	dir := filepath.Join(Root, "replays", id)
